@@ -13,7 +13,7 @@
 ##############################################################################
 """Data Chunk Receiver"""
 
-from waitress.rfc7230 import CHUNK_EXT_RE, ONLY_HEXDIG_RE
+from waitress.rfc7230 import CHUNK_EXT_RE, HEADER_FIELD_RE, ONLY_HEXDIG_RE
 from waitress.utilities import BadRequest, find_double_newline
 
 
@@ -133,7 +133,14 @@ class ChunkedReceiver:
                     s = s[pos + 2 :]
                     self.control_line = b""
 
-                    if line:
+                    if not line:
+                        # a chunk starts with its size: an empty control
+                        # line is malformed, not something to skip
+                        self.error = BadRequest("Invalid chunk size")
+                        self.all_chunks_received = True
+
+                        break
+                    else:
                         # Begin a new chunk.
                         semi = line.find(b";")
 
@@ -165,7 +172,6 @@ class ChunkedReceiver:
                         else:
                             # Finished chunks.
                             self.all_chunks_received = True
-                    # else expect a control line.
             else:
                 # Receive the trailer.
                 trailer = self.trailer + s
@@ -185,6 +191,23 @@ class ChunkedReceiver:
                     # Finished the trailer.
                     self.completed = True
                     self.trailer = trailer[:pos]
+
+                    # trailer-section = *( field-line CRLF ); a line that
+                    # starts with SP / HTAB continues the previous one
+                    previous = False
+
+                    for line in self.trailer[:-4].split(b"\r\n"):
+                        folded = previous and line[:1] in (b" ", b"\t")
+
+                        if (
+                            b"\r" in line
+                            or b"\n" in line
+                            or not (folded or HEADER_FIELD_RE.match(line))
+                        ):
+                            self.error = BadRequest("Invalid trailer")
+
+                            break
+                        previous = True
 
                     return orig_size - (len(trailer) - pos)
 
